@@ -290,6 +290,44 @@ def bit_sample(r: Any, nbits: int, n: int, tier: str, always: list[int]) -> list
     return sorted(pos)
 
 
+def degenerate_ints(v: int, maximum: int) -> list[tuple[str, int]]:
+    """(name, value): the DEGENERATE values of an integer field whose honest value is `v`: zero, the largest value the wire format
+    holds, minus one, the negated value, and what remains of the decimal numeral when its last / first digit is dropped or only its
+    first digit is kept (a truncated text) -- without `v` itself."""
+    d = str(abs(v))
+    cand = [("zero", 0), ("max", maximum), ("minus-one", -1), ("negated", -v), ("prefix", int(d[:-1] or "0")), ("suffix", int(d[1:] or "0")), ("first-digit", int(d[0]))]
+    out, seen = [], {v}
+    for name, x in cand:
+        if x not in seen:
+            seen.add(x)
+            out.append((name, x))
+    return out
+
+
+def degenerate_texts(v: str) -> list[tuple[str, str]]:
+    """(name, value): empty, white space only, the text without its last / first character, its first character alone, the text with
+    white space put before / after / around it -- without `v` itself.  (At OBJECT level nothing strips white space: every one of them
+    is another value.)"""
+    cand = [("empty", ""), ("space", " "), ("tab-newline", "\t\n"), ("prefix", v[:-1]), ("suffix", v[1:]), ("first-char", v[:1]), ("leading-space", " " + v),
+            ("trailing-space", v + " "), ("trailing-newline", v + "\n"), ("doubled", v + v)]
+    out, seen = [], {v}
+    for name, x in cand:
+        if x not in seen:
+            seen.add(x)
+            out.append((name, x))
+    return out
+
+
+def degenerate_octets(b64text: str) -> list[tuple[str, str]]:
+    """(name, base64 text): degenerate versions of an octet string: none, white space only (decodes to none), first / second half,
+    the first octet alone, the last octet dropped from the front, all zero and all 0xFF of the same length"""
+    raw = base64.b64decode(b64text)
+    enc = lambda b: base64.b64encode(b).decode()  # noqa: E731
+    half = len(raw) // 2
+    return [("empty", ""), ("space", " "), ("first-half", enc(raw[:half])), ("second-half", enc(raw[half:])), ("first-octet", enc(raw[:1])), ("without-first-octet", enc(raw[1:])),
+            ("all-zero", enc(bytes(len(raw)))), ("all-ff", enc(b"\xff" * len(raw)))]
+
+
 def variants(r: Any, case: dict[str, Any], tks: list[Any], tier: str, heavy: bool) -> list[tuple[str, dict[str, Any]]]:
     """(tag, case).  tag prefix: honest / control (must be accepted), tamper (must be rejected)."""
     import keys as fx
@@ -385,6 +423,57 @@ def variants(r: Any, case: dict[str, Any], tks: list[Any], tier: str, heavy: boo
     out.append(("control:sig-ttl", with_sig(ttl=s0["ttl"] + 1)))
     out.append(("control:sig-subsecond-inception", with_sig(inc=s0["inc"] + 999_999)))
     out.append(("control:sig-subsecond-expiration", with_sig(exp=s0["exp"] + 1)))
+
+    # --- DEGENERATE values of every signed field of the signature (not a bit flip, not +-1): each must be refused -- the signed
+    # octets differ, or no RRSIG with such a field exists -- and an unsigned field (Signature.ttl) must not matter
+    for nm, v in degenerate_texts(s0["name"]) + [("two-dots", ".."), ("single-letter", "x"), ("dot-space-dot", ". .")]:
+        out.append((f"tamper:degenerate-sig-signers-name:{nm}", with_sig(name=v)))
+    for nm, v in degenerate_ints(s0["ottl"], 2**32 - 1):
+        out.append((f"tamper:degenerate-sig-original-ttl:{nm}", with_sig(ottl=v)))
+    for nm, v in degenerate_ints(s0["labels"], 255):
+        out.append((f"tamper:degenerate-sig-labels:{nm}", with_sig(labels=v)))
+    for nm, v in degenerate_ints(s0["tag"], 65535):
+        out.append((f"tamper:degenerate-sig-key-tag:{nm}", with_sig(tag=v)))
+    for fld, tagname in (("inc", "inception"), ("exp", "expiration")):
+        for nm, v in degenerate_ints(s0[fld] // SEC, 2**32 - 1):
+            out.append((f"tamper:degenerate-sig-{tagname}:{nm}", with_sig(**{fld: v * SEC})))
+    out.append(("tamper:degenerate-sig-times:swapped", with_sig(inc=s0["exp"], exp=s0["inc"])))
+    out.append(("tamper:degenerate-sig-times:both-inception", with_sig(exp=s0["inc"])))
+    out.append(("tamper:degenerate-sig-times:both-zero", with_sig(inc=0, exp=0)))
+    for alg in (1, 3, 6, 7, 12, 15, 16):  # the other members of the algorithm registry the data model knows (lowest, highest, ...)
+        out.append((f"tamper:degenerate-sig-algorithm:{alg}", with_sig(alg=alg)))
+    for nm, v in degenerate_ints(s0["ttl"], 2**32 - 1):
+        if nm in ("zero", "max", "prefix"):
+            out.append((f"control:degenerate-sig-ttl:{nm}", with_sig(ttl=v)))
+    for nm, v in degenerate_octets(s0["sig"]):
+        out.append((f"tamper:degenerate-sig-octets:{nm}", with_sig(sig=v)))
+    for nm, v in degenerate_texts(s0["id"]):
+        out.append((f"tamper:degenerate-sig-identifier:{nm}", with_sig(id=v)))
+
+    # --- DEGENERATE values of every field of the key
+    def with_key(**kw: Any) -> dict[str, Any]:
+        cc = clone(case)
+        cc["keys"][t].update(kw)
+        return cc
+
+    k0 = case["keys"][t]
+    for nm, v in degenerate_octets(k0["pk"]):
+        out.append((f"tamper:degenerate-key-octets:{nm}", with_key(pk=v)))
+    for nm, v in degenerate_ints(k0["flags"], 65535):
+        out.append((f"tamper:degenerate-key-flags:{nm}", with_key(flags=v)))
+    for nm, v in degenerate_ints(k0["protocol"], 255) + [("beyond", 256)]:
+        out.append((f"tamper:degenerate-key-protocol:{nm}", with_key(protocol=v)))
+    for alg in (1, 3, 5, 6, 7, 12, 15, 16):
+        if alg != k0["alg"]:
+            out.append((f"tamper:degenerate-key-algorithm:{alg}", with_key(alg=alg)))
+    for nm, v in degenerate_texts(k0["id"]):
+        out.append((f"tamper:degenerate-key-identifier:{nm}", with_key(id=v)))
+    for nm, v in degenerate_ints(k0["ttl"], 2**32 - 1):
+        if nm in ("zero", "max", "prefix"):
+            out.append((f"control:degenerate-key-ttl:{nm}", with_key(ttl=v)))  # Key.ttl is not signed: the RRSIG's original TTL is
+    for nm, v in degenerate_ints(k0["tag"], 65535):
+        if nm in ("zero", "max", "prefix"):
+            out.append((f"control:degenerate-key-tag-field-not-in-rdata:{nm}", with_key(tag=v)))
 
     # --- signature octets
     sig_bits = len(base64.b64decode(s0["sig"])) * 8
